@@ -125,6 +125,84 @@ def chunk(bl):
     return res
 
 
+def solver_equiv_case(case):
+    """E2: the real solver on one block of the generated family, reduction on and off, exogenous values of k >= 1 symbolic, optional step tracing:
+    every variable has the same value in every period k >= 1 (the blocks have no within-period simultaneity, so both runs are exact)."""
+    from vf import symx
+    from vf.symx import Driver, SymReal
+    from vf.props.c15 import StubRender
+    import sfc_models.equation_solver as ES
+    idx, trace = case
+    from vf.harness.c03_gen import gen_blocks
+    name, block = gen_blocks()[idx]
+    D = Driver(timeout_ms=10000, max_paths=400, max_seconds=60)
+    g = [z3.Real('g1'), z3.Real('g2')]
+    for v in g:
+        D.assume(v >= -100, v <= 100)
+    out = {'case': case, 'name': name, 'viol': None, 'unknown': 0, 'solved': 0}
+
+    def path():
+        ES.SYM_IC = 7.25
+        ES.SYM_G = [2.0] + [SymReal(v) for v in g]
+        res = []
+        for reduce in (True, False):
+            es = EquationSolver(run_equation_reduction=reduce)
+            es.MaxTime = 2
+            es.ParseString(block)
+            if trace:
+                es.TraceStep = trace
+            try:
+                es.SolveEquation()
+            except ValueError:
+                return 'raised'
+            res.append(es.TimeSeries)
+        out['solved'] += 1
+        a, b = res
+        if set(a) != set(b):
+            if out['viol'] is None:
+                out['viol'] = {'why': 'variables differ: %r vs %r' % (sorted(a), sorted(b)), 'g': ['1', '2']}
+            return 'solved'
+        # the unreduced run solves alias chains by iteration, so the two runs agree to the iteration tolerance (1e-8 relative per sweep), not exactly
+        def close(x, y):
+            x, y = symx.lift(x), symx.lift(y)
+            d = z3.If(x - y >= 0, x - y, y - x)
+            return d <= symx.rat(1e-5) * (1 + z3.If(x >= 0, x, -x) + z3.If(y >= 0, y, -y))
+        props = [close(a[v][k], b[v][k]) for v in a for k in (0, 1, 2)]
+        r, m = D.holds(z3.And(props))
+        if r == 'sat' and out['viol'] is None:
+            bad = [(v, k) for v in a for k in (0, 1, 2) if not z3.is_true(m.eval(close(a[v][k], b[v][k]), model_completion=True))]
+            out['viol'] = {'why': 'reduction on / off give different values for %r' % (bad[:4],), 'g': [str(m.eval(v, model_completion=True)) for v in g]}
+        elif r == 'unknown':
+            out['unknown'] += 1
+        return 'solved'
+    with StubRender():
+        D.run_all(path)
+    out.update(paths=D.paths, queries=D.queries, solver_s=D.solver_s, exhaustive=D.exhaustive, dunknown=D.unknown)
+    return out
+
+
+REPLAY_SOLVER = '''
+import sys
+from fractions import Fraction as F
+import sfc_models.equation_solver as ES
+from sfc_models.equation_solver import EquationSolver
+from vf.harness.c03_gen import gen_blocks
+idx, trace = %(case)r
+g = [float(F(x)) for x in %(g)r]
+name, block = gen_blocks()[idx]
+ES.SYM_IC = 7.25; ES.SYM_G = [2.0] + g
+res = []
+for reduce in (True, False):
+    es = EquationSolver(run_equation_reduction=reduce); es.MaxTime = 2; es.ParseString(block)
+    if trace: es.TraceStep = trace
+    es.SolveEquation(); res.append({v: list(es.TimeSeries[v]) for v in es.TimeSeries})
+a, b = res
+bad = [v for v in a if v not in b or any(abs(x - y) > 1e-5 * (1 + abs(x) + abs(y)) * (1 - 1e-6) for x, y in zip(a[v], b[v]))]
+print('block', name, 'trace step', trace)
+for v in bad[:5]: print(v, 'reduction on', a[v], 'off', b.get(v))
+sys.exit(1 if bad or set(a) != set(b) else 0)
+'''
+
 REPLAY = '''
 import sys
 from vf.props import c03
@@ -180,6 +258,23 @@ def run(tier, seed):
         only = {'check_k0_gen_%02d' % i for i in range(len(gb)) if i < 15 or (i // 2) % 2 == 0} | {'reach_k0_gen'}
     resg = chx.run_file(HG, timeout=T, only=only, workers=14)
     chx.absorb(chk, HG, resg)
+    scases = [(i, tr) for i in range(len(gb)) for tr in (None, 2) if tier != 'quick' or (i % 3 == 0 or (i // 2) % 4 == 1)]
+    for st, o in pmap(solver_equiv_case, scases):
+        if st != 'ok':
+            chk.harness_errors.append(o[:800])
+            continue
+        chk.solver_s += o['solver_s']
+        chk.queries += o['queries']
+        chk.count('solver_equiv_paths', o['paths'])
+        what = 'solver: block %s%s: reduction on == off in every period' % (o['name'], ' with step %d traced' % o['case'][1] if o['case'][1] else '')
+        if not o['exhaustive'] or o['unknown'] or o['dunknown'] or not o['solved']:
+            chk.ob('unknown', what)
+        else:
+            chk.ob('sat' if o['viol'] else 'unsat', what, distinct=('solver-equiv',) + tuple(o['case']))
+        if o['viol']:
+            chk.violation('solver-equiv:%s:%s' % (o['name'], 'traced' if o['case'][1] else 'plain'), what + ': ' + o['viol']['why'], REPLAY_SOLVER % dict(case=o['case'], g=o['viol']['g']))
+    chk.bounds['k>=1 through the solver'] = ('%d (block of the generated family, step tracing off / on) pairs: the real solver with reduction on and off, exogenous values of '
+                                             'k = 1, 2 symbolic reals in [-100,100], every variable equal in every period up to 1e-5 relative (the unreduced run iterates alias chains to its tolerance)' % len(scases))
     chk.bounds['k=0 generated family'] = ('%d of %d generated blocks (one / two alias chains rooted in constant, exogenous, lagged, dynamic, initial-conditioned variable; '
                                           'target-first / target-last / mixed order; lag and decorative users), same symbolic values' % (len(resg) - 1, len(gb)))
     chk.exhaustive = True
